@@ -138,10 +138,14 @@ class EffectAnalysis:
         self.rounds = 0
         self.gen_quals: Dict[Tuple[str, str], str] = {}
         for kind, (prefix, _) in GEN.items():
+            deco = prefix.split(".")[3]
             for which in ("setter", "getter"):
                 q = prefix + "." + which
                 if q not in self.M.funcs:
-                    raise AnalysisError(f"generated-property body {q} not found in Property.py")
+                    # the accessor bodies may live in a factory the decorator calls (Model.gen_accessor)
+                    q = self.M.gen_accessor(deco, which)
+                    if q is None:
+                        raise AnalysisError(f"generated-property body {prefix}.{which} not found in Property.py")
                 self.gen_quals[(kind, which)] = q
         self.targets = [q for q in self.M.funcs if not any(s in q for s in OUT_OF_SCOPE)]
         self._sub_memo: Dict[str, List[str]] = {}
@@ -170,6 +174,8 @@ class EffectAnalysis:
     def forced_self_kind(self, q: str):
         for kind, (prefix, k) in GEN.items():
             if q.startswith(prefix + ".setter") or q.startswith(prefix + ".getter"):
+                return k
+            if q in (self.gen_quals.get((kind, "setter")), self.gen_quals.get((kind, "getter"))):
                 return k
         return None
 
